@@ -372,11 +372,23 @@ def prefix_guards(ctx, rule, cons, flat=None):
         rows = guard_table(ctx, cons)
         flat = [(r['ctx'], a, r) for r in rows for a in r['atoms']]
     fixed, fixed_why = vector_generators_fixed(ctx)
+    # what the closure of an `any(..)` over the zipped vectors tests: the accept form of `any(|(a, b)| a != b)` is "every pair is equal"
+    deep_rows = guard_table(ctx, cons, deep=True)
+    wrong_pred = set()
+    for i_, r_ in enumerate(deep_rows):
+        for a_ in r_['atoms']:
+            if a_[0] == 'pred' and a_[1] == 'any' and a_[3] is False:
+                kids = [k_ for k_ in deep_rows if k_['parent'] == i_]
+                if kids and not all(x[0] == 'cmp' and x[1] == 'Eq' for k_ in kids for x in k_['atoms']):
+                    wrong_pred.add(str(a_[2][0]))
     for nm, fld in (('G vector', '.g_vec'), ('H vector', '.h_vec')):
         hit = None
         why = 'no `any(a != b)` guard over the zipped generator iterators'
         harmless, others = [], []
         for c, a, r in flat:
+            if r['eff'] != 'bypass' and fld in repr(a) and a[0] == 'pred' and a[1] == 'any' and str(a[2][0]) in wrong_pred:
+                others.append((a, r))            # `any` with another predicate than inequality: refuses members that agree
+                continue
             if r['eff'] != 'bypass' and fld in repr(a):
                 # a prefix comparison (zip + any(a != b), or its loop form) with whichever member never refuses a consistent batch;
                 # any other condition on the vectors may
